@@ -574,6 +574,38 @@ fn front_ends(ctx: &Ctx, root: &Path, sample: &[&GenIdl]) {
         ctx.violation("c09:build-script-front-end-fails", json!({"engine": "c09", "front_end": "cargo_build_many", "message": "the build script (or cargo) failed without compiler diagnostics", "tail": tail}));
     }
     let _ = std::fs::remove_dir_all(&dir);
+    // build script re-run after the definition shrank: the generated file must be the new code
+    // only (same crate, same OUT_DIR, second `cargo check`)
+    {
+        let dir = root.join("regen");
+        let long = "# first revision\ninterface org.verif.regen\ntype Cfg (name: string, level: int, tags: [string]())\nmethod Get() -> (cfg: Cfg)\nmethod Set(cfg: Cfg) -> ()\nmethod Watch(filter: ?string) -> (cfg: Cfg, seq: int)\nerror NotFound (name: string)\nerror Busy (owner: string, since: int)\n";
+        let short = "interface org.verif.regen\nmethod Get() -> (name: string)\n";
+        let files = vec![("idl/r.varlink".to_string(), long.to_string()), ("src/lib.rs".to_string(), "#![allow(warnings)]\npub mod r { include!(concat!(env!(\"OUT_DIR\"), \"/r.rs\")); }\n".to_string())];
+        let build = "fn main() { varlink_generator::cargo_build(\"idl/r.varlink\"); }\n";
+        let cargo_extra = format!("\n[build-dependencies]\nvarlink_generator = {{ path = \"{}/varlink_generator\" }}\n", repo);
+        write_crate(&dir, "regen", &cargo_extra, &files, Some(build));
+        let (ok1, d1, tail1) = cargo_json(&dir, &["check"]);
+        ctx.case(Some(hash_of(&("regen", long, short))));
+        ctx.count("build_script_regenerations", 1);
+        if !ok1 {
+            if d1.is_empty() {
+                ctx.inconclusive(json!({"harness": "regen crate: first build failed without diagnostics", "tail": tail1}));
+            } else {
+                ctx.violation("c09:build-script-front-end-output-does-not-compile", json!({"engine": "c09", "front_end": "cargo_build", "definition": long, "first_error": d1[0].message, "rendered": d1[0].rendered}));
+            }
+        } else {
+            std::fs::write(dir.join("idl/r.varlink"), short).unwrap();
+            let (ok2, d2, tail2) = cargo_json(&dir, &["check"]);
+            if !ok2 {
+                ctx.violation(
+                    "c09:build-script-front-end-regenerated-output-does-not-compile",
+                    json!({"engine": "c09", "front_end": "cargo_build, run a second time into the same OUT_DIR after the definition shrank", "definition": short, "previous_definition": long,
+                           "first_error": d2.first().map(|d| d.message.clone()).unwrap_or_default(), "rendered": d2.first().map(|d| d.rendered.clone()).unwrap_or(tail2)}),
+                );
+            }
+        }
+        let _ = std::fs::remove_dir_all(&dir);
+    }
     // generator options: substituted scalar types + a preamble that defines them, written both
     // as a stand-alone source file (tosource) and as an includable module body
     let dir = root.join("opt");
